@@ -26,7 +26,7 @@ J c19_to_json(const C19Case& c) {
   for (const FsSpec& f : c.fs) { J jf = J::obj(); jf.set("path", f.path); jf.set("kind", f.kind); jf.set("content", f.content); jf.set("marker", f.marker); fs.push(jf); }
   j.set("fs", fs);
   J ops = J::arr();
-  for (const C19Op& o : c.ops) { J jo = J::obj(); jo.set("op", o.op); if (o.op == "load") jo.set("name", o.name); ops.push(jo); }
+  for (const C19Op& o : c.ops) { J jo = J::obj(); jo.set("op", o.op); if (o.op == "load" || o.op == "setenv" || o.op == "unsetenv") jo.set("name", o.name); ops.push(jo); }
   j.set("ops", ops);
   J fl = J::arr();
   for (const C19Fault& f : c.faults) { J jf = J::obj(); jf.set("k", f.k); jf.set("open_index", f.open_index); jf.set("at", f.at); jf.set("err", f.err); jf.set("transient", f.transient); fl.push(jf); }
@@ -72,7 +72,7 @@ const std::vector<std::string>& name_opts() {
                                        "Fixed/UTC+24:00:01", "Fixed/UTC+5:30:00", "UTC00", "utc", "Fixed/UTC+00:00:00", "Fixed/UTC-24:00:00", "Fixed/UTC+05:30", "file:Fixed/UTC+05:30:00",
                                        "Dir/../X", "X/.", "Dir/./Y", "./Dir//Y", " X", "X ", "\xc3\x9cn\xc3\xaf/X", "EST5EDT", "<+03>-3", "Dir/../../X", "X/../X", "LONG", "Dir/Y/", "x", "X\tX", "NUL1", "NUL2", "NUL3", "NUL4",
                                        // fields of 60..99 are accepted as long as the total stays within 24 h (and the zone reports the spelling it was asked for)
-                                       "Fixed/UTC+00:60:00", "Fixed/UTC+05:90:00", "Fixed/UTC-00:00:99", "Fixed/UTC+23:60:01", "Fixed/UTC+23:59:60", "Fat", "file:Fat"};
+                                       "Fixed/UTC+00:60:00", "Fixed/UTC+05:90:00", "Fixed/UTC-00:00:99", "Fixed/UTC+23:60:01", "Fixed/UTC+23:59:60", "Fat", "file:Fat", "A%sB", "A\\B", "~/X", "EST5EDT,M3.2.0,M11.1.0"};
   return v;
 }
 
@@ -117,6 +117,11 @@ void standard_tree(C19Case* c) {
     add(d + "/\xc3\x9cn\xc3\xaf", "dir", "");
     add(d + "/\xc3\x9cn\xc3\xaf/X", "reg", "marker");
     add(d + "/EST5EDT", "reg", "marker");
+    add(d + "/EST5EDT,M3.2.0,M11.1.0", "reg", "marker");
+    add(d + "/A%sB", "reg", "marker");
+    add(d + "/A\\B", "reg", "marker");
+    add(d + "/~", "dir", "");
+    add(d + "/~/X", "reg", "marker");
     add(d + "/Fat", "reg", "markerfat:250");    // "zic -b fat" layout: a populated 32-bit block of 1262 bytes precedes the data that is decoded
     add(d + "/MarkF", "reg", "markerf");        // marker zone with a non-empty footer
     add(d + "/TruncNL", "reg", "truncf:1");     // ... whose closing newline is missing
@@ -333,7 +338,7 @@ C19Case gen_c19(const std::string& part, const std::string& tier, uint64_t seed,
     uint64_t p = r.below(100);
     if (p < 70) {
       o.op = "load"; o.name = r.pick(name_opts());
-      if (o.name == "LONG") o.name = std::string(static_cast<size_t>(r.pick(std::vector<int>{200, 255, 256, 300, 1100, 5000})), 'y');
+      if (o.name == "LONG") o.name = std::string(static_cast<size_t>(r.pick(std::vector<int>{200, 255, 256, 300, 1100, 4075, 4076, 4095, 4096, 5000})), 'y');
       expand_nul_name(&o.name);
       if (!c.ops.empty() && r.chance(0.15)) o.name = c.ops[r.below(c.ops.size())].name;
     }
@@ -345,6 +350,23 @@ C19Case gen_c19(const std::string& part, const std::string& tier, uint64_t seed,
   if (r.chance(0.35)) {
     for (FsSpec& f : c.fs) if (f.content == "marker" && r.chance(0.3)) f.content = "markerfat:" + std::to_string(r.pick(std::vector<int>{10, 100, 202, 203, 204, 205, 250, 407, 408, 409, 410, 1000, 2500}));
   }
+  // The environment is process-global configuration that may change between calls: a fifth of the fault-free random
+  // worlds change or remove TZ, TZDIR or LOCALTIME in mid-world.  (Names already loaded keep their first outcome.)
+  if (part == "random" && r.chance(0.2)) {
+    int ne = static_cast<int>(r.range(1, 2));
+    for (int i = 0; i < ne; ++i) {
+      C19Op o;
+      uint64_t v = r.below(3);
+      const std::vector<Opt>& opts = v == 0 ? tz_opts() : (v == 1 ? tzdir_opts() : lt_opts());
+      const Opt& pick = opts[r.below(opts.size())];
+      const char* var = v == 0 ? "TZ" : (v == 1 ? "TZDIR" : "LOCALTIME");
+      if (pick.set) { o.op = "setenv"; o.name = std::string(var) + "=" + pick.v; } else { o.op = "unsetenv"; o.name = var; }
+      c.ops.insert(c.ops.begin() + static_cast<long>(r.below(c.ops.size() + 1)), o);
+    }
+  }
+  // A few environments the cross product does not have.
+  if (part == "random" && r.chance(0.05)) { c.tzdir_set = true; c.tzdir = r.pick(std::vector<std::string>{"/sim/zi:/usr/share/zoneinfo", "/sim/zi ", " /sim/zi", "/sim/zi/.", "/sim/zi/Dir/..", "//sim//zi", "/sim/zi/X"}); }
+  if (part == "random" && r.chance(0.05)) { c.tz_set = true; c.tz = r.pick(std::vector<std::string>{"EST5EDT", "EST5EDT,M3.2.0,M11.1.0", "<+03>-3", "file::X", ":file:X", "UTC0", ":UTC", "Fixed/UTC+00:60:00", "Fat", ":Fat", "A%sB", "~/X"}); }
   static const std::vector<int> chunks = {1, 2, 3, 7, 64, 512, 4096, 65536};
   c.chunk = r.pick(chunks);
   if (part == "faulted") {
@@ -493,6 +515,13 @@ Outcome exec_c19(const C19Case& c, bool keep_log, Stats* stats) {
         OpResult& r = (*results)[i];
         cctz::time_zone tz;
         LibraryScope ls;
+        if (o.op == "setenv" || o.op == "unsetenv") {
+          HarnessScope hs;
+          size_t eq = o.name.find('=');
+          if (o.op == "unsetenv") env.vars.erase(o.name); else env.vars[o.name.substr(0, eq)] = o.name.substr(eq + 1);
+          r.ok = true; r.name = "UTC"; r.is_utc = true;
+          continue;
+        }
         if (o.op == "load") r.ok = cctz::load_time_zone(o.name, &tz);
         else if (o.op == "local") { tz = cctz::local_time_zone(); r.ok = true; }
         else r.ok = true;
@@ -522,13 +551,36 @@ Outcome exec_c19(const C19Case& c, bool keep_log, Stats* stats) {
   set_phase("oracle");
   ev("env TZDIR=" + (c.tzdir_set ? "'" + c.tzdir + "'" : "(unset)") + " TZ=" + (c.tz_set ? "'" + c.tz + "'" : "(unset)") + " LOCALTIME=" + (c.lt_set ? "'" + c.lt + "'" : "(unset)"));
   int fopen_count = static_cast<int>(opens1.size());
+  C19Case cur = c;                          // the environment as it stands before each op
+  std::map<std::string, Expect> loaded;    // a name that has been loaded keeps its first outcome (the name cache)
+  auto cached_load = [&](const std::string& name) {
+    int64_t off0 = 0;
+    if (builtin_name(name, &off0)) return model_load(cur, name, back);
+    auto it = loaded.find(name);
+    if (it != loaded.end()) return it->second;
+    return loaded.emplace(name, model_load(cur, name, back)).first->second;
+  };
   for (size_t i = 0; i < c.ops.size() && !out.poisoned; ++i) {
     const C19Op& o = c.ops[i];
     const OpResult& r = res1[i];
     Expect e;
     std::string what;
-    if (o.op == "load") { e = model_load(c, o.name, back); what = "load_time_zone('" + o.name + "')"; }
-    else if (o.op == "local") { e = model_local(c, back); what = "local_time_zone()"; }
+    if (o.op == "setenv" || o.op == "unsetenv") {
+      size_t eq = o.name.find('=');
+      std::string var = o.name.substr(0, eq), val = eq == std::string::npos ? std::string() : o.name.substr(eq + 1);
+      bool set = o.op == "setenv";
+      if (var == "TZ") { cur.tz_set = set; cur.tz = val; } else if (var == "TZDIR") { cur.tzdir_set = set; cur.tzdir = val; } else if (var == "LOCALTIME") { cur.lt_set = set; cur.lt = val; }
+      ev(o.op + " " + o.name);
+      if (stats) stats->add("probe.environment_changed_in_mid_world");
+      continue;
+    }
+    if (o.op == "load") { e = cached_load(o.name); what = "load_time_zone('" + o.name + "')"; }
+    else if (o.op == "local") {
+      std::string z = cur.tz_set ? cur.tz : ":localtime";
+      if (!z.empty() && z[0] == ':') z = z.substr(1);
+      if (z == "localtime") z = cur.lt_set ? cur.lt : "/etc/localtime";
+      e = cached_load(z); what = "local_time_zone()";
+    }
     else { e = Expect(); what = "time_zone()"; }
     if (stats && c.part == "platform" && o.op != "default") {
       if (e.path.find('[') != std::string::npos) stats->add(e.ok ? "probe.android_entry_expected_to_load" : "probe.android_entry_found_but_cut");
